@@ -356,6 +356,7 @@ fn layer_two(ctx: &Ctx, totals: &mut LoomTotals) {
 pub fn run(ctx: &Ctx) -> i32 {
     let t0 = std::time::Instant::now();
     let mut walls = serde_json::Map::new();
+    let mut capped = 0u64;
     let _ = PRESET_NAMES;
     layer_real_pool(ctx);
     walls.insert("real_pool".into(), json!(t0.elapsed().as_secs_f64()));
@@ -369,6 +370,7 @@ pub fn run(ctx: &Ctx) -> i32 {
         let mut totals = LoomTotals::default();
         layer_two(ctx, &mut totals);
         report_loom(ctx, &totals);
+        capped = totals.capped;
         walls.insert("schedules".into(), json!(t2.elapsed().as_secs_f64()));
     } else {
         ctx.set("loom", json!("NOT RUN: the loom worker is not built (/verif/target/loom/release/vloom missing or VERIF_NO_LOOM set); decompositions and schedules were not explored in this run"));
@@ -381,7 +383,8 @@ pub fn run(ctx: &Ctx) -> i32 {
     ctx.assume("a multi-threaded run that differs from one thread while the executable specification reports a tie / near-zero regret sum under the same configuration is counted as ill conditioned, not judged");
     ctx.finish(
         "layer 1: every valid game within the bounds + curated / collision / k-ary families x presets x budgets x task targets 1..=12 (hook, 2 workers) and public thread counts {2,3,4,8,16} on the families; layer 2: every schedule (loom) of every task-target case of the small universe and the collision games; states = layer-1 cases + loom schedules; non-trivial = task target > 1 (layer 1) or >= 2 concurrent tasks (layer 2)",
-        true,
+        // exhaustive unless a loom case hit its permutation / time cap (those are counted in `loom`)
+        capped == 0,
         "the real solve_full_multi is driven (a) through a real pool for every task decomposition and (b) under loom for every interleaving of its worker tasks; each result is compared with the one-thread result of the same configuration",
     )
 }
